@@ -1,7 +1,8 @@
 """C09 — quantizer configuration round-trip (DESIGN.md §4 C09).
 
-static tie   : constructor signatures (names, order, defaults) of all registered classes and the
-               registry contents, read from the live objects, vs the model's tables (exhaustive).
+static tie   : constructor signatures (names, order, defaults) of all registered classes, the key
+               list of get_config() (hence which constructor arguments it omits) and the registry
+               contents, read from the live objects, vs the model's tables (exhaustive).
 behavioural  : option lattice of every class -> real get_config() vs model getConfig, the three
                rebuild routes vs the model's verdict and rebuilt fields.
 clause oracle: rebuilt quantizer must not raise and must give bit-identical outputs / scale
@@ -15,6 +16,29 @@ import numpy as np
 from .. import core, qlattice as L
 
 STOCHASTIC = {"bernoulli", "stochastic_binary", "stochastic_ternary"}
+
+# list-valued scale_axis / elements_per_scale and combinations of the options that get_config
+# used to omit (fix round): swept in addition to the shared lattice of qkv.qlattice
+EXTRA = {
+    "quantized_bits": [
+        {"alpha": "auto", "scale_axis": [0, 1]},
+        {"bits": 4, "alpha": "auto_po2", "scale_axis": [0, 1], "elements_per_scale": [2, 3]},
+        {"bits": 4, "alpha": "auto_po2", "scale_axis": 1, "elements_per_scale": 3,
+         "min_po2_exponent": -1, "max_po2_exponent": 0, "use_ste": False},
+    ],
+    "binary": [
+        {"alpha": "auto_po2", "scale_axis": [0, 1], "elements_per_scale": [2, 3]},
+        {"alpha": "auto_po2", "scale_axis": 1, "elements_per_scale": 3, "min_po2_exponent": -1,
+         "max_po2_exponent": 0},
+    ],
+    "quantized_linear": [{"bits": 4, "alpha": "auto", "scale_axis": [0, 1]}],
+    "quantized_hswish": [{"bits": 6, "integer": 2, "alpha": "auto", "scale_axis": [0, 1]},
+                         {"bits": 6, "integer": 2, "alpha": "auto_po2", "scale_axis": 0,
+                          "relu_shift": 2, "relu_upper_bound": 4}],
+    "quantized_relu": [{"bits": 4, "integer": 1, "relu_upper_bound": 1.5, "is_quantized_clip": False,
+                        "use_ste": False}],
+    "bernoulli": [{"alpha": "auto", "temperature": 0.25, "use_real_sigmoid": False}],
+}
 
 
 def _build(cls, kw):
@@ -37,7 +61,8 @@ def run(run: core.Run, tier: str):
   rng = np.random.default_rng(run.seed)
   run.extra["rule"] = (
       "per class: default, every option value under every context of qkv.qlattice.LATTICE, plus "
-      "option pairs (36 seeded pairs in quick, all pairs + 60 triples in thorough); non-trivial = "
+      "option pairs (36 seeded pairs in quick, all pairs + 60 triples in thorough), plus the fixed "
+      "list-valued / formerly-omitted option combinations of EXTRA; non-trivial = "
       "distinct (class, keyword set); probes = fixed 4x6 tensor with distinct rows/columns and "
       "out-of-range values, a seeded 4x6 and a seeded rank-4 tensor; both learning phases for "
       "stochastic configurations, tf.random seed reset before every call")
@@ -77,6 +102,24 @@ def run(run: core.Run, tier: str):
     mod = model_cls.get(name, {}).get("params")
     if impl != mod:
       run.disagree("static.signature", {"class": name}, impl, mod)
+    # get_config key list of the default instance (dict order) and the constructor arguments it
+    # omits, vs the model's cfgSpec / dropped
+    run.case(("static", "config_keys", name))
+    run.compared += 1
+    try:
+      keys = list(cls().get_config().keys())
+    except Exception as e:  # pylint: disable=broad-except
+      keys = ["<raises %s>" % L.err_tag(e)]
+    omitted = [p[0] for p in impl if p[0] not in keys]
+    mk, md = model_cls.get(name, {}).get("config_keys"), model_cls.get(name, {}).get("dropped")
+    if keys != mk or omitted != md:
+      run.disagree("static.config_keys", {"class": name}, {"keys": keys, "omitted": omitted},
+                   {"keys": mk, "omitted": md})
+    extra_keys = [k for k in keys if k not in [p[0] for p in impl]]
+    if extra_keys:
+      # a key the constructor does not accept makes from_config(get_config()) a TypeError
+      run.violate("config_keys_accepted", {"class": name, "keys": ",".join(extra_keys)},
+                  {"get_config_keys": keys, "constructor": [p[0] for p in impl]}, mirrored=False)
   try:
     R.lookup_quantizer("no_such_quantizer")
     run.disagree("static.registry", {"lookup": "no_such_quantizer"}, "no error", "KeyError")
@@ -93,7 +136,7 @@ def run(run: core.Run, tier: str):
     if cls is None:
       continue
     names = [p[0] for p in model_cls[name]["params"]]
-    for kind, kw in L.configs(name, tier, rng):
+    for kind, kw in L.configs(name, tier, rng) + [("extra", kw) for kw in EXTRA.get(name, [])]:
       rec = {"class": name, "kw": kw, "kind": kind}
       line = {"op": "roundtrip", "cls": name, "args": [], "kw": L.enc_env(kw)}
       lines.append(line)
@@ -232,9 +275,10 @@ def run(run: core.Run, tier: str):
     elif rec.get("diff_fields"):
       n_unobserved += 1
       run.count("field_reset_but_no_observable_difference")
-    if o.get("serializable") and (kinds or errs) and name != "quantized_hswish":
-      # the proved theorem says this cannot happen when model and code agree
-      run.disagree("theorem.same_function_partial", case, sorted(kinds) + errs, "equal instance")
+    if (kinds or errs) and "ok" in o["from_config"]:
+      # C09_same_function: cannot happen when model and code agree (every class, every instance)
+      run.disagree("theorem.same_function", case, sorted(kinds) + errs,
+                   "same class, same stored options (build-only options aside)")
   run.extra["reset_fields_without_observable_difference"] = n_unobserved
 
   # ------------------------------------------------------------------ malformed stream
